@@ -5,7 +5,7 @@
    named [old_] definitions. *)
 From Coq Require Import List ZArith NArith Bool String.
 Import ListNotations.
-From SygmaV Require Import Model.C20 Proofs.C20.
+From SygmaV Require Import Model.C20 Proofs.C20 Model.C20Num Proofs.C20Num.
 Local Open Scope Z_scope.
 
 (* ---- ports ---------------------------------------------------------------------------------- *)
@@ -448,6 +448,229 @@ Print Assumptions C20_level_ok_model.
 Theorem C20_level_ok_sound : forall s l, level_ok s (Some l) = true -> l = s.
 Proof. exact level_ok_sound. Qed.
 Print Assumptions C20_level_ok_sound.
+
+(* ---- every numeric chain setting round-trips or is rejected (Model/C20Num.v) ------------------------ *)
+
+(* For EVERY numeric / duration setting of the three chain kinds and EVERY written value - any Go integer,
+   any integer or fraction of a JSON document that a float64 holds exactly ([num_wf]), strings, bools, an
+   absent key - the model of the REPAIRED constructors (/repo commits 4b6460c b9a0784 e724d22) meets the specification: the
+   configuration is rejected, or the loaded value is the written number, or the default for a written
+   zero. *)
+Theorem C20_num_ok_model : forall k f nf w, nfield_of k f = Some nf -> num_wf nf w = true ->
+  num_ok k f w (model_num k f w) = true.
+Proof. exact num_ok_model. Qed.
+Print Assumptions C20_num_ok_model.
+
+(* ... and the specification says what it reads: an accepted value v of a written number q is q (in the
+   setting's unit) or, for q = 0, the default *)
+Theorem C20_num_ok_sound : forall k f nf w v q, nfield_of k f = Some nf ->
+  num_ok k f w (Some v) = true -> reading w = Some q ->
+  fst v * Zpos (snd q) = fst q * scale_of nf * Zpos (snd v)
+  \/ (fst q = 0 /\ fst v = nf_default nf * scale_of nf * Zpos (snd v)).
+Proof. exact num_ok_sound. Qed.
+Print Assumptions C20_num_ok_sound.
+
+(* a NEGATIVE number reaching the decoder for an unsigned setting (transferGas, blockRetryInterval, tip)
+   is rejected, and the specification accepts no non-negative value for a written negative number *)
+Theorem C20_unsigned_negative_rejected : forall k f nf z h, nfield_of k f = Some nf -> nf_ty nf = TU64 -> handed z h < 0 ->
+  model_num k f (WNum z h) = None
+  /\ forall v, z < 0 -> num_ok k f (WNum z h) (Some v) = true -> fst v < 0.
+Proof. exact unsigned_negative_rejected. Qed.
+Print Assumptions C20_unsigned_negative_rejected.
+
+(* THE REPAIR (config.DecodeExact / chain.ValidateSeconds), for every integer setting: a fraction is rejected, *)
+Theorem C20_num_fraction_rejected : forall k f nf n d, nfield_of k f = Some nf -> nf_ty nf <> TF64 ->
+  model_num k f (WFrac n d) = None.
+Proof. exact num_fraction_rejected. Qed.
+Print Assumptions C20_num_fraction_rejected.
+
+(* a number outside the range of the setting's Go type is rejected, *)
+Theorem C20_num_out_of_range_rejected : forall k f nf z h, nfield_of k f = Some nf ->
+  (nf_ty nf = TI64 /\ (handed z h < min_i64 \/ max_i64 < handed z h))
+  \/ (nf_ty nf = TU64 /\ (handed z h < 0 \/ max_u64 < handed z h)) ->
+  model_num k f (WNum z h) = None.
+Proof. exact num_out_of_range_rejected. Qed.
+Print Assumptions C20_num_out_of_range_rejected.
+
+(* an accepted integer setting holds exactly the number the decoder was handed (or the default for 0), a
+   duration at most the seconds a time.Duration holds, *)
+Theorem C20_num_accepted_exact : forall k f nf z h v, nfield_of k f = Some nf -> nf_ty nf <> TF64 ->
+  model_num k f (WNum z h) = Some v ->
+  snd v = 1%positive /\
+  (fst v = handed z h * scale_of nf \/ (handed z h = 0 /\ fst v = nf_default nf * scale_of nf)) /\
+  (nf_secs nf = true -> fst v <= max_secs * giga).
+Proof. exact num_accepted_exact. Qed.
+Print Assumptions C20_num_accepted_exact.
+
+(* and more seconds of blockRetryInterval than a time.Duration holds are rejected *)
+Theorem C20_num_retry_interval_bound : forall k z h, max_secs < handed z h ->
+  model_num k FRetryInterval (WNum z h) = None.
+Proof. exact num_retry_interval_bound. Qed.
+Print Assumptions C20_num_retry_interval_bound.
+
+(* BEFORE the repair (mapstructure.Decode, no bound on the seconds; [old_model_num]) - known findings
+   C20-num-fraction-truncated, C20-num-range-wrap, C20-retry-interval-wrap, fixed by /repo commits 4b6460c b9a0784 e724d22:
+   a fraction written for an integer setting was cut off (maxGasPrice 1.5 -> 1, blockConfirmations 1.5 -> 1,
+   blockInterval 0.5 -> 0 -> the default 5) *)
+Theorem C20_old_num_fraction_truncated_refuted :
+  old_model_num Evm FMaxGasPrice (WFrac 3 2) = Some (1, 1%positive) /\
+  num_ok Evm FMaxGasPrice (WFrac 3 2) (old_model_num Evm FMaxGasPrice (WFrac 3 2)) = false /\
+  old_model_num Btc FConfs (WFrac 3 2) = Some (1, 1%positive) /\
+  num_ok Btc FConfs (WFrac 3 2) (old_model_num Btc FConfs (WFrac 3 2)) = false /\
+  old_model_num Evm FInterval (WFrac 1 2) = Some (5, 1%positive) /\
+  model_num Evm FMaxGasPrice (WFrac 3 2) = None /\ model_num Btc FConfs (WFrac 3 2) = None.
+Proof. exact old_num_fraction_truncated_refuted. Qed.
+Print Assumptions C20_old_num_fraction_truncated_refuted.
+
+(* a number beyond the target type wrapped: gasLimit 2^63 -> -2^63, transferGas 2^64 -> 2^63, a Go uint64
+   startBlock 2^63 -> -2^63, maxGasPrice 2^63-1 of a JSON document (the float64 2^63) -> -2^63 *)
+Theorem C20_old_num_int64_wrap_refuted :
+  old_model_num Evm FGasLimit (WNum two63 AsFloat) = Some (min_i64, 1%positive) /\
+  num_ok Evm FGasLimit (WNum two63 AsFloat) (old_model_num Evm FGasLimit (WNum two63 AsFloat)) = false /\
+  old_model_num Evm FTransferGas (WNum two64 AsFloat) = Some (two63, 1%positive) /\
+  num_ok Evm FTransferGas (WNum two64 AsFloat) (old_model_num Evm FTransferGas (WNum two64 AsFloat)) = false /\
+  old_model_num Evm FStartBlock (WNum two63 AsInt) = Some (min_i64, 1%positive) /\
+  old_model_num Evm FMaxGasPrice (WNum max_i64 AsFloat) = Some (min_i64, 1%positive) /\
+  model_num Evm FGasLimit (WNum two63 AsFloat) = None /\ model_num Evm FTransferGas (WNum two64 AsFloat) = None /\
+  model_num Evm FStartBlock (WNum two63 AsInt) = None /\ model_num Evm FMaxGasPrice (WNum max_i64 AsFloat) = None.
+Proof. exact old_num_int64_wrap_refuted. Qed.
+Print Assumptions C20_old_num_int64_wrap_refuted.
+
+(* blockRetryInterval: more than 9223372036 seconds wrapped in the product with time.Second *)
+Theorem C20_old_num_retry_interval_wrap_refuted :
+  old_model_num Btc FRetryInterval (WNum 9223372037 AsFloat) = Some (-9223372036709551616, 1%positive) /\
+  num_ok Btc FRetryInterval (WNum 9223372037 AsFloat) (old_model_num Btc FRetryInterval (WNum 9223372037 AsFloat)) = false /\
+  model_num Btc FRetryInterval (WNum 9223372037 AsFloat) = None /\
+  model_num Btc FRetryInterval (WNum 9223372036 AsFloat) = Some (9223372036000000000, 1%positive).
+Proof. exact old_num_retry_interval_wrap_refuted. Qed.
+Print Assumptions C20_old_num_retry_interval_wrap_refuted.
+
+(* STILL the case (open known finding C20-json-integer-rounding): an integer above 2^53 that no float64
+   holds, written in a JSON document, is loaded as the nearest float64 (chainID 2^53+1 -> 2^53) *)
+Theorem C20_num_float_rounding_refuted :
+  model_num Sub FChainID (WNum 9007199254740993 AsFloat) = Some (9007199254740992, 1%positive) /\
+  num_ok Sub FChainID (WNum 9007199254740993 AsFloat) (model_num Sub FChainID (WNum 9007199254740993 AsFloat)) = false /\
+  exact53 9007199254740993 = false /\ exact53 9007199254740992 = true.
+Proof. exact num_float_rounding_refuted. Qed.
+Print Assumptions C20_num_float_rounding_refuted.
+
+(* ---- uploaderConfig.maxRetries (weakly typed decoding of the relayer section of a config file) ------- *)
+
+(* for EVERY written value (JSON integers that a float64 holds exactly) the repaired loader meets the
+   specification: rejected, or the written number (a string: the number it spells in the base-0 syntax
+   of the weak decoder, else in decimal), or the default 5 for a written zero *)
+Theorem C20_retries_ok_model : forall w, retries_wf w = true -> retries_ok w (model_retries w) = true.
+Proof. exact retries_ok_model. Qed.
+Print Assumptions C20_retries_ok_model.
+
+Theorem C20_retries_ok_sound : forall w v q, retries_ok w (Some v) = true -> reading0 w = Some q ->
+  fst v * Zpos (snd q) = fst q * Zpos (snd v) \/ (fst q = 0 /\ fst v = 5 * Zpos (snd v)).
+Proof. exact retries_ok_sound. Qed.
+Print Assumptions C20_retries_ok_sound.
+
+Theorem C20_retries_bad_number_rejected : forall z h n d,
+  (handed z h < 0 \/ max_u64 < handed z h -> model_retries (WNum z h) = None) /\ model_retries (WFrac n d) = None.
+Proof. exact retries_bad_number_rejected. Qed.
+Print Assumptions C20_retries_bad_number_rejected.
+
+(* before the repair (known finding C20-uploader-weak-number-wrap): maxRetries -1 -> 2^64-1, 1.5 -> 1, 2^64 -> 2^63 *)
+Theorem C20_old_retries_wrap_refuted :
+  old_model_retries (WNum (-1) AsFloat) = Some (max_u64, 1%positive) /\
+  retries_ok (WNum (-1) AsFloat) (old_model_retries (WNum (-1) AsFloat)) = false /\
+  old_model_retries (WFrac 3 2) = Some (1, 1%positive) /\
+  retries_ok (WFrac 3 2) (old_model_retries (WFrac 3 2)) = false /\
+  old_model_retries (WNum two64 AsFloat) = Some (two63, 1%positive) /\
+  model_retries (WNum (-1) AsFloat) = None /\ model_retries (WFrac 3 2) = None /\ model_retries (WNum two64 AsFloat) = None /\
+  model_retries (WNum 7 AsFloat) = Some (7, 1%positive) /\ model_retries (WStr "0x10") = Some (16, 1%positive) /\
+  model_retries (WStr "") = Some (5, 1%positive) /\ model_retries WAbsent = Some (5, 1%positive).
+Proof. exact old_retries_wrap_refuted. Qed.
+Print Assumptions C20_old_retries_wrap_refuted.
+
+(* ---- numeric strings -------------------------------------------------------------------------------- *)
+
+(* a BTC resource's fee amount: for EVERY text the model (big.Int.SetString base 10) is accepted by the
+   specification, an accepted amount is the number the text spells in decimal, every integer written in
+   decimal comes back; a base-0 parser in that place reads "0100" as 64 and is rejected *)
+Theorem C20_fee_ok_model : forall s, fee_ok s (parse_fee s) = true.
+Proof. exact fee_ok_model. Qed.
+Print Assumptions C20_fee_ok_model.
+
+Theorem C20_fee_ok_sound : forall s v q, fee_ok s (Some v) = true -> parse_int_text s = Some q -> v = q.
+Proof. exact fee_ok_sound. Qed.
+Print Assumptions C20_fee_ok_sound.
+
+Theorem C20_fee_roundtrip : forall z, parse_fee (print_Z z) = Some z.
+Proof. exact fee_roundtrip. Qed.
+Print Assumptions C20_fee_roundtrip.
+
+Theorem C20_fee_base0_refuted :
+  parse_fee "0100" = Some 100 /\ parse_uint0 max_u64 "0100" = Some 64 /\
+  fee_ok "0100" (parse_uint0 max_u64 "0100") = false /\ fee_ok "0100" (parse_fee "0100") = true.
+Proof. exact fee_base0_refuted. Qed.
+Print Assumptions C20_fee_base0_refuted.
+
+(* relayer ports are written in Go's base-0 syntax (strconv.ParseUint(s, 0, 16)), in which a leading 0 IS
+   octal notation: "017" spells 15.  For EVERY text the port as the code reads it meets the base-0
+   specification port0_ok (C20_port0_ok_model) - accepted: the number the text spells, and it lies in
+   0..65535 (C20_port0_ok_sound, _port0_range); every canonical decimal 0..65535 is read as itself (the
+   domain enumerated completely: 65536 texts); on the canonical decimals the base-0 reading and the
+   decimal model [parse_port] coincide.  (Observation C20-port-octal-notation: a zero-padded decimal such
+   as "017" is therefore port 15, not 17 - C20_port0_readings.) *)
+Theorem C20_port0_canonical : forall v, 0 <= v <= 65535 -> parse_port0 (print_Z v) = Some v.
+Proof. exact port0_canonical. Qed.
+Print Assumptions C20_port0_canonical.
+
+Theorem C20_port0_range : forall s v, parse_port0 s = Some v -> 0 <= v <= 65535.
+Proof. exact (parse_uint0_range 65535). Qed.
+Print Assumptions C20_port0_range.
+
+Theorem C20_port0_agrees : forall v, parse_port0 (print_Z v) = parse_port (print_Z v) \/ v < 0 \/ 65535 < v.
+Proof. exact port0_agrees. Qed.
+Print Assumptions C20_port0_agrees.
+
+Theorem C20_port0_ok_model : forall s, port0_ok s (parse_port0 s) = true.
+Proof. exact port0_ok_model. Qed.
+Print Assumptions C20_port0_ok_model.
+
+Theorem C20_port0_ok_sound : forall s v impl, read_uint0 s = Some v -> port0_ok s impl = true ->
+  forall p, impl = Some p -> p = v /\ 0 <= v <= 65535.
+Proof. exact port0_ok_sound. Qed.
+Print Assumptions C20_port0_ok_sound.
+
+Theorem C20_port0_readings :
+  parse_port0 "017" = Some 15 /\ port0_ok "017" (Some 15) = true /\ port0_ok "017" (Some 17) = false /\
+  port_ok "017" (Some 15) = false /\
+  parse_port0 "0100" = Some 64 /\ parse_port0 "08" = None /\ parse_port0 "007" = Some 7 /\
+  parse_port0 "0x1F90" = Some 8080 /\ parse_port0 "1_000" = Some 1000 /\ parse_port0 "_1" = None /\
+  parse_port0 "1__0" = None /\ parse_port0 "0x_1" = Some 1 /\ parse_port0 "0b101" = Some 5 /\ parse_port0 "0o17" = Some 15 /\
+  parse_port0 "0" = Some 0 /\ parse_port0 "0x" = None /\ parse_port0 "+1" = None /\ parse_port0 "" = None /\
+  parse_port0 "65536" = None /\ parse_port0 "0xFFFF" = Some 65535 /\ parse_port0 "0x10000" = None /\ parse_port0 "0_7" = Some 7.
+Proof. exact port0_readings. Qed.
+Print Assumptions C20_port0_readings.
+
+(* Non-vacuity of the numeric-setting theorems *)
+Example C20_nonvacuous_numeric :
+  nfield_of Evm FTransferGas = Some (mkNF TU64 250000 None None false) /\
+  num_wf (mkNF TU64 250000 None None false) (WNum (-1) AsInt) = true /\
+  model_num Evm FTransferGas (WNum (-1) AsInt) = None /\
+  num_ok Evm FTransferGas (WNum (-1) AsInt) (Some (18446744073709551615, 1%positive)) = false /\
+  num_ok Evm FRetryInterval (WNum (-1) AsFloat) (Some (-1000000000, 1%positive)) = true /\
+  num_ok Evm FRetryInterval (WNum (-1) AsFloat) (Some (-1000000000 + two64, 1%positive)) = false /\
+  model_num Evm FRetryInterval (WNum 7 AsFloat) = Some (7000000000, 1%positive) /\
+  model_num Evm FGasMultiplier (WFrac 3 2) = Some (3, 2%positive) /\
+  model_num Evm FMaxGasPrice (WNum 0 AsInt) = Some (500000000000, 1%positive) /\
+  num_ok Evm FMaxGasPrice (WNum 0 AsInt) (Some (500000000000, 1%positive)) = true /\
+  num_ok Evm FMaxGasPrice (WStr "010") (Some (8, 1%positive)) = false /\
+  num_ok Evm FMaxGasPrice (WStr "010") (Some (10, 1%positive)) = true /\
+  model_num Sub FNet (WNum 70000 AsFloat) = None /\ model_num Sub FTip (WNum max_u64 AsInt) = Some (max_u64, 1%positive) /\
+  num_wf (mkNF TI64 5 (Some 1) None false) (WNum two64 AsFloat) = true /\ model_num Btc FInterval (WNum two64 AsFloat) = None /\
+  num_wf (mkNF TI64 0 None None false) (WFrac 3 2) = true /\ model_num Evm FStartBlock (WFrac 3 2) = None /\
+  model_num Evm FStartBlock (WNum min_i64 AsFloat) = Some (min_i64, 1%positive) /\
+  retries_wf (WNum (-1) AsFloat) = true /\ model_retries (WNum (-1) AsFloat) = None /\
+  retries_ok (WNum (-1) AsFloat) (Some (max_u64, 1%positive)) = false /\
+  fee_ok "0100" (Some 64) = false /\ fee_ok "0100" (Some 100) = true /\ fee_ok "0x10" (Some 16) = true /\ parse_fee "0x10" = None /\
+  port0_ok "0x1F90" (parse_port0 "0x1F90") = true /\ port0_ok "017" (Some 17) = false.
+Proof. vm_compute. repeat split. Qed.
 
 (* Non-vacuity: the hypotheses are satisfiable and the boundary values behave as stated. *)
 Local Open Scope string_scope.
